@@ -145,16 +145,18 @@ def skip_pairs():
 
 def field_format_pairs():
     out = []
-    dm = ("#[derive(derive_more::Debug)]\npub struct S(#[debug(\"<{_0:x}>\")] pub Probe, pub Probe, #[debug(\"{}/{_1:?}\", _2.twin())] pub Probe);\n"
-          "#[derive(derive_more::Debug)]\npub struct N { #[debug(\"{a}{{\")] pub a: Probe, pub b: Probe, #[debug(skip)] pub c: Probe, #[debug(\"{:>+5.1}\", self.b)] pub d: Probe }")
+    dm = "#[derive(derive_more::Debug)]\npub struct S(#[debug(\"<{_0:x}>\")] pub Probe, pub Probe, #[debug(\"{}/{_1:?}\", _2.twin())] pub Probe);"
     sd = ("pub struct S(pub Probe, pub Probe, pub Probe);\nimpl fmt::Debug for S {\n    fn fmt(&self, f: &mut fmt::Formatter<'_>) -> fmt::Result {\n"
-          "        f.debug_tuple(\"S\").field(&format_args!(\"<{:x}>\", self.0)).field(&self.1).field(&format_args!(\"{}/{:?}\", self.2.twin(), self.1)).finish()\n    }\n}\n"
-          "pub struct N { pub a: Probe, pub b: Probe, pub c: Probe, pub d: Probe }\nimpl fmt::Debug for N {\n    fn fmt(&self, f: &mut fmt::Formatter<'_>) -> fmt::Result {\n"
-          "        f.debug_struct(\"N\").field(\"a\", &format_args!(\"{}{{\", self.a)).field(\"b\", &self.b).field(\"d\", &format_args!(\"{:>+5.1}\", self.b)).finish_non_exhaustive()\n    }\n}")
-    mk = lambda m: "(%s::S(%s, %s, %s), %s::N { a: %s, b: %s, c: %s, d: %s })" % (  # noqa
-        m, P % "i0", P % "i1", P % "i2", m, P % "i2", P % "i0", P % "i1", P % "i1")
-    out.append(Shape("c06_flat_field_format", module(dm, sd, pair_harness("same_as_std_debug", mk, 3)), H(), dm.replace("\n", " "),
+          "        f.debug_tuple(\"S\").field(&format_args!(\"<{:x}>\", self.0)).field(&self.1).field(&format_args!(\"{}/{:?}\", self.2.twin(), self.1)).finish()\n    }\n}")
+    mk = lambda m: "%s::S(%s, %s, %s)" % (m, P % "i0", P % "i1", P % "i2")  # noqa
+    out.append(Shape("c06_flat_field_format_tuple", module(dm, sd, pair_harness("same_as_std_debug", mk, 3)), H(), dm.replace("\n", " "),
                      exercises=["impl/src/fmt/debug.rs::Expansion::generate_body (field attributes)"], crate_attrs=CRATE_ATTRS))
+    dm = "#[derive(derive_more::Debug)]\npub struct N { #[debug(\"{a}{{\")] pub a: Probe, pub b: Probe, #[debug(skip)] pub c: Probe, #[debug(\"{:>+5.1}\", self.b)] pub d: Probe }"
+    sd = ("pub struct N { pub a: Probe, pub b: Probe, pub c: Probe, pub d: Probe }\nimpl fmt::Debug for N {\n    fn fmt(&self, f: &mut fmt::Formatter<'_>) -> fmt::Result {\n"
+          "        f.debug_struct(\"N\").field(\"a\", &format_args!(\"{}{{\", self.a)).field(\"b\", &self.b).field(\"d\", &format_args!(\"{:>+5.1}\", self.b)).finish_non_exhaustive()\n    }\n}")
+    mk = lambda m: "%s::N { a: %s, b: %s, c: %s, d: %s }" % (m, P % "i2", P % "i0", P % "i1", P % "i1")  # noqa
+    out.append(Shape("c06_flat_field_format_named", module(dm, sd, pair_harness("same_as_std_debug", mk, 3)), H(), dm.replace("\n", " "),
+                     exercises=["impl/src/fmt/debug.rs::Expansion::generate_body (field attributes)"], quick=False, crate_attrs=CRATE_ATTRS))
     return out
 
 
